@@ -1,6 +1,7 @@
 import PyPhysim.Model.Proto
 import PyPhysim.Model.C20
 import PyPhysim.Model.C20Gmd
+import PyPhysim.Model.C20Robust
 open PyPhysim.Proto PyPhysim.LinAlg
 
 /-!
@@ -67,7 +68,120 @@ def nat3 (a b c : String) : Option (Nat × Nat × Nat) := do
 
 def emptyOk (s : String) : String := if s = "-" then "" else s
 
+
+/-! ### R16: histories on the caller's arrays (`PyPhysim.C20R.run`) -/
+
+/-- a binary64 array with its shape: the contents of one of the caller's arrays -/
+structure Buf where
+  rows : Nat
+  cols : Nat
+  data : Array CF
+
+def Buf.mat (b : Buf) : Mat CF b.rows b.cols := toMat b.rows b.cols b.data
+
+def showBuf (b : Buf) : String :=
+  toString b.rows ++ "x" ++ toString b.cols ++ ":" ++ showMat b.mat
+
+def parseCAny (s : String) : Option (Array CF) := do
+  let fs ← parseFloatList? (emptyOk s)
+  let ps ← pairs fs
+  some ps.toArray
+
+def convBuf (f : Float → Float) (b : Buf) : String :=
+  ",".intercalate (b.data.toList.map (fun z => showFloat (f z.re)))
+
+open PyPhysim.C20R in
+/-- the operations of a history line; kernel results (`G` of `inv`, `Q` of the object) ride along -/
+def parseOps : List String → Option (List (Op Buf String))
+  | [] => some []
+  | "R" :: i :: m :: k :: d :: rest => do
+      let (i, m, k) ← nat3 i m k
+      let xs ← parseC (m * k) (emptyOk d)
+      let tl ← parseOps rest
+      some (.refill i ⟨m, k, xs⟩ :: tl)
+  | "proj" :: i :: g :: rest => do
+      let i ← i.toNat?
+      let G ← parseCAny g
+      let tl ← parseOps rest
+      some (.call1 (fun b => showMat (projWith (toMat b.cols b.cols G) b.mat) ++ "|" ++
+                              showMat (oprojWith (toMat b.cols b.cols G) b.mat)) i :: tl)
+  | "chord2" :: i :: j :: ga :: gb :: rest => do
+      let (i, j, _) ← nat3 i j "0"
+      let GA ← parseCAny ga
+      let GB ← parseCAny gb
+      let tl ← parseOps rest
+      some (.call2 (fun a b => showFloat (chordal2 (toMat a.cols a.cols GA) (toMat b.cols b.cols GB) a.mat
+                                 (toMat a.rows b.cols b.data)).re) i j :: tl)
+  | "apply" :: i :: q :: rest => do
+      let i ← i.toNat?
+      let Q ← parseCAny q
+      let tl ← parseOps rest
+      some (.call1 (fun b => showMat (project (toMat b.rows b.rows Q) b.mat) ++ "|" ++
+                              showMat (reflect (toMat b.rows b.rows Q) b.mat)) i :: tl)
+  | "uisd" :: i :: j :: rest => do
+      let (i, j, _) ← nat3 i j "0"
+      let tl ← parseOps rest
+      some (.call2 (fun a d => showE showMat (updateInvSumDiag (toMat a.rows a.rows a.data) d.data.toList)) i j :: tl)
+  | "gmd" :: i :: j :: k :: p :: sb :: rest => do
+      let (i, j, k) ← nat3 i j k
+      let p ← p.toNat?
+      let sb ← parseFloat? sb
+      let tl ← parseOps rest
+      some (.call3 (fun u s vh =>
+        let m := u.rows
+        let n := vh.rows
+        let ucols : Array (Array CF) :=
+          Array.ofFn (n := m) (fun c => Array.ofFn (n := m) (fun r => u.data.getD (r.val * m + c.val) ⟨0, 0⟩))
+        -- column c of V = V_H^H is the conjugate of row c of V_H
+        let vcols : Array (Array CF) :=
+          Array.ofFn (n := n) (fun c => Array.ofFn (n := n) (fun r => Conj.conj (vh.data.getD (c.val * n + r.val) ⟨0, 0⟩)))
+        match gmd m n p (⟨sb, 0⟩ : CF) ucols s.data vcols with
+        | .error e => "error:" ++ toString e
+        | .ok (Q, R, P, mg) =>
+          let showCols (k : Nat) (M : Array (Array CF)) : String :=
+            ",".intercalate ((List.range k).flatMap (fun i => (List.range k).map (fun j =>
+              showC ((M.getD j #[]).getD i ⟨0, 0⟩))))
+          let showRows (M : Array (Array CF)) : String :=
+            ",".intercalate (M.toList.flatMap (fun row => row.toList.map showC))
+          showCols m Q ++ "|" ++ showRows R ++ "|" ++ showCols n P ++ "|" ++ showFloat mg.re) i j k :: tl)
+  | "lin2db" :: i :: rest => do
+      let i ← i.toNat?
+      let tl ← parseOps rest
+      some (.call1 (convBuf linear2dB) i :: tl)
+  | "lin2dbm" :: i :: rest => do
+      let i ← i.toNat?
+      let tl ← parseOps rest
+      some (.call1 (convBuf linear2dBm) i :: tl)
+  | "db2lin" :: i :: rest => do
+      let i ← i.toNat?
+      let tl ← parseOps rest
+      some (.call1 (convBuf dB2Linear) i :: tl)
+  | "dbm2lin" :: i :: rest => do
+      let i ← i.toNat?
+      let tl ← parseOps rest
+      some (.call1 (convBuf dBm2Linear) i :: tl)
+  | "snr2ebn0" :: i :: j :: rest => do
+      let (i, j, _) ← nat3 i j "0"
+      let tl ← parseOps rest
+      some (.call2 (fun y b => convBuf (fun v => snrToEbN0 v (b.data.getD 0 ⟨1, 0⟩).re) y) i j :: tl)
+  | "ebn02snr" :: i :: j :: rest => do
+      let (i, j, _) ← nat3 i j "0"
+      let tl ← parseOps rest
+      some (.call2 (fun y b => convBuf (fun v => ebN0ToSnr v (b.data.getD 0 ⟨1, 0⟩).re) y) i j :: tl)
+  | _ => none
+
+/-- `hist nbuf op …` -> results of the operations (`-` for a refill) joined by `;`, then ` # ` and the
+    final contents of the arrays `0 … nbuf-1` -/
+def handleHist (nbuf : String) (toks : List String) : String :=
+  match nbuf.toNat?, parseOps toks with
+  | some nb, some ops =>
+    let r := PyPhysim.C20R.run (fun _ => (⟨0, 0, #[]⟩ : Buf)) ops
+    ";".intercalate (r.2.map (fun o => o.getD "-")) ++ " # " ++
+      ";".intercalate ((List.range nb).map (fun i => showBuf (r.1 i)))
+  | _, _ => "bad-op"
+
 def handle : List String → String
+  | "hist" :: nbuf :: toks => handleHist nbuf toks
   -- proj m k A G  ->  gram | P | oP
   | ["proj", m, k, a, g] => Id.run do
       let some (m, k, _) := nat3 m k "0" | return "bad-op"
